@@ -21,9 +21,9 @@ func (*C09) Rule() string {
 }
 
 func (*C09) Plan(tier string) orch.Plan {
-	n := 500
+	n := 4000
 	if tier == "thorough" {
-		n = 80000
+		n = 300000
 	}
 	return orch.Plan{Episodes: n, Batch: 1}
 }
@@ -70,7 +70,7 @@ func (p *C09) Gen(seed uint64, i int, tier string) *scen.Scenario {
 			key := fmt.Sprintf("k%d", r.Intn(30))
 			switch r.Intn(8) {
 			case 0:
-				as = append(as, scen.Arg{K: "attr", Key: key, Items: []scen.Arg{{K: "err", S: "boom " + key}}})
+				as = append(as, scen.Arg{K: "attr", Key: key, Items: []scen.Arg{{K: scen.Pick(r, []string{"err", "stackerr"}), S: "boom " + key}}})
 			case 1:
 				as = append(as, scen.Arg{K: "ggroup", Key: "g" + key, Items: []scen.Arg{
 					{K: "attr", Key: "x", Items: []scen.Arg{{K: "i", I: int64(r.Intn(100))}}}, {K: "attr", Key: "y", Items: []scen.Arg{{K: "s", S: "v"}}}}})
@@ -112,6 +112,12 @@ func (p *C09) Gen(seed uint64, i int, tier string) *scen.Scenario {
 			}
 			if r.Chance(1, 6) {
 				op.Msg = "h" + tok(tk) + "\nmore\nlines"
+			}
+			if r.Chance(1, 4) {
+				// another record from the probe's own call site (the commonest history of all: the same
+				// statement logging again and again), with its own content
+				op = scen.Op{Op: "write_thru", L: op.L, Kind: "pc", Lvl: op.Lvl, Msg: op.Msg, Tok: op.Tok, Args: op.Args,
+					T: &scen.TimeSpec{S: 1500000000 + int64(r.Intn(100000000)), Ns: int64(r.Intn(1e9))}}
 			}
 			for q := range op.Args {
 				if r.Chance(1, 3) {
@@ -167,7 +173,7 @@ func (p *C09) WellFormed(sc *scen.Scenario) bool {
 	}
 	for _, t := range sc.Tasks {
 		for i := range t.Ops {
-			if t.Ops[i].Op != "log" {
+			if t.Ops[i].Op != "log" && t.Ops[i].Op != "write_thru" {
 				return false
 			}
 		}
